@@ -609,3 +609,83 @@ def model_eval(model, term, default=None):
     if z3.is_false(v):
         return False
     return str(v)
+
+
+def explore_records(fn, name="", max_paths=20000):
+    """like explore(), but fn() returns a record {'order': hashable, 'terms': {name: z3 term}, 'flags': {...}}
+    per path; the path condition is attached.  Used for relational obligations across demonic choices."""
+    global CUR
+    rep = Report(name)
+    records = []
+    pending = [[]]
+    t0 = time.time()
+    while pending:
+        prefix = pending.pop()
+        c = Ctx(prefix)
+        CUR = c
+        try:
+            try:
+                rec = fn()
+                if rec is not None:
+                    rec = dict(rec)
+                    rec["pc"] = list(c.solver.assertions())
+                    rec["trace"] = list(c.trace)
+                    records.append(rec)
+                rep.exits.append(("return", None, list(c.trace)))
+            except InfeasiblePath:
+                rep.exits.append(("infeasible", None, list(c.trace)))
+            except PathAbort as e:
+                rep.exits.append(("abort", str(e), list(c.trace)))
+            except EngineUnsupported as e:
+                import traceback
+
+                rep.engine_errors.append((str(e), traceback.format_exc(limit=8)))
+        finally:
+            CUR = None
+        rep.paths += 1
+        rep.queries += c.nq
+        rep.solver_time += c.solver_time
+        rep.obligs.extend(c.obligs)
+        pending.extend(c.pending)
+        if rep.paths > max_paths:
+            rep.engine_errors.append(("path explosion", f"> {max_paths} paths"))
+            break
+    rep.wall = time.time() - t0
+    return rep, records
+
+
+def compare_records(records, same_group=lambda a, b: a["order"] != b["order"], timeout_ms=60000):
+    """relational obligation: any two records (from different demonic orders) whose path conditions can
+    hold together agree on every flag and every term.  Returns list of (status, what, rec_a, rec_b, model)"""
+    out = []
+    n_checked = 0
+    for i in range(len(records)):
+        for j in range(i + 1, len(records)):
+            a, b = records[i], records[j]
+            if not same_group(a, b):
+                continue
+            s = z3.Solver()
+            s.set("timeout", timeout_ms)
+            s.add(*a["pc"])
+            s.add(*b["pc"])
+            if s.check() == z3.unsat:
+                continue
+            n_checked += 1
+            for k in set(a.get("flags", {})) | set(b.get("flags", {})):
+                if a.get("flags", {}).get(k) != b.get("flags", {}).get(k):
+                    out.append(("failed", f"flag:{k}", a, b, s.model() if s.check() == z3.sat else None))
+            for k in set(a.get("terms", {})) & set(b.get("terms", {})):
+                ta, tb = a["terms"][k], b["terms"][k]
+                if ta is None or tb is None:
+                    continue
+                if z3.simplify(ta).eq(z3.simplify(tb)):
+                    continue
+                s.push()
+                s.add(ta != tb)
+                r = s.check()
+                if r == z3.sat:
+                    out.append(("failed", f"term:{k}", a, b, s.model()))
+                elif r != z3.unsat:
+                    out.append(("unknown", f"term:{k}", a, b, None))
+                s.pop()
+    return out, n_checked
